@@ -347,6 +347,14 @@ def run_impl(case):
     out = []
     regs = []          # [(Sequence, converter)]
     table = [None]
+    table2 = [None]
+    # the default table is a module-level singleton: rebuild it for every case, so that a table that was
+    # altered through a shared array (a defect in the code under test) cannot leak into later cases
+    import biotite.sequence.codon as _codon
+    try:
+        _codon._default_table = seq.CodonTable.load("Standard").with_start_codons(["ATG"])
+    except Exception:  # noqa: BLE001
+        pass
 
     def arr(dt, vals):
         if dt == "list":
@@ -474,15 +482,29 @@ def run_impl(case):
         if op == "c_default":
             table[0] = seq.CodonTable.default_table()
             return "ok " + _show_table(table[0])
-        if op == "c_tr":
+        if op in ("c_show", "c_show2"):
+            t = table[0] if op == "c_show" else table2[0]
+            return "ERR:notable" if t is None else "ok " + _show_table(t)
+        if op in ("c_derive_map", "c_derive_starts"):
             if table[0] is None:
+                return "ERR:notable"
+            table2[0] = None
+            if op == "c_derive_map":
+                t = table[0].with_codon_mappings(dict(it.split("=") for it in _ptoks(w[1])))
+            else:
+                t = table[0].with_start_codons(_ptoks(w[1]))
+            table2[0] = t
+            return "ok " + _show_table(t)
+        if op in ("c_tr", "c_tr2"):
+            tab = table if op == "c_tr" else table2
+            if tab[0] is None:
                 return "ERR:notable"
             dna = "" if w[3] == "_" else w[3]
             s = seq.NucleotideSequence(dna)
             if w[1] == "1":
-                p = s.translate(complete=True, codon_table=table[0])
+                p = s.translate(complete=True, codon_table=tab[0])
                 return "ok " + (str(p) or "_")
-            prots, pos = s.translate(complete=False, codon_table=table[0], met_start=(w[2] == "1"))
+            prots, pos = s.translate(complete=False, codon_table=tab[0], met_start=(w[2] == "1"))
             return "ok " + (";".join(f"{p}@{int(a)}-{int(b)}" for p, (a, b) in zip(prots, pos)) or "_")
         if op == "c_get":
             if table[0] is None:
@@ -752,6 +774,87 @@ def _case_add(rng):
     return {"kind": "sequence-add", "ops": ops}
 
 
+def _case_eq(rng):
+    """`==` between sequences whose code arrays coincide although alphabet / class / symbols differ"""
+    ops = []
+    r = rng.random()
+    if r < 0.55:
+        letter = rng.random() < 0.6
+        al = [str(p) for p in _letter_alph(rng, small=True)] if letter else rng.sample(GEN_TOKENS, rng.randint(2, 8))
+        pre = "L:" if letter else "G:"
+        codes = [rng.randrange(len(al)) for _ in range(rng.choice([0, 1, 3, 5, 8]))]
+        perm = list(al)
+        rng.shuffle(perm)                                            # same symbols, another order
+        pool = [str(p) for p in PRINTABLE] if letter else GEN_TOKENS
+        extra = rng.sample([t for t in pool if t not in al], min(2, len([t for t in pool if t not in al])))
+        longer = al + extra                                          # an extension: same codes, same symbols
+        shifted = (extra + al)[:max(len(al), 1)] if extra else perm  # other symbols under the same codes
+        variants = [al, perm, longer, shifted, al]
+        for v in variants:
+            ops.append(f"s_new {pre}{_toks(v)} {_toks(v[c] for c in codes if c < len(v))}")
+        n = len(variants)
+        pairs = [(i, j) for i in range(n) for j in range(n)]
+        rng.shuffle(pairs)
+        for i, j in pairs[:8]:
+            ops.append(f"s_eq {i} {j}")
+        ops += ["s_code 0", "s_code 1", "s_str 1", "s_code 3", "s_str 3"]
+    else:
+        # same letters, different classes / nucleotide alphabets
+        txt = [rng.choice("ACGT") for _ in range(rng.choice([1, 2, 4, 6]))]
+        b = _ints(ord(c) for c in txt)
+        ops += [f"s_nuc {b}",                                      # 0: NucleotideSequence, unambiguous
+                f"s_new L:65,67,71,84 {b}",                        # 1: GeneralSequence, same alphabet, same codes
+                f"s_nuc {b},78", f"s_slice 2 0 {len(txt)}",        # 2,3: ambiguous alphabet, same codes after slicing
+                f"s_new L:84,71,67,65 {_ints(ord('TGCA'['ACGT'.index(c)]) for c in txt)}",   # 4: other order, same codes
+                f"s_prot {_ints(ord('ACDE'['ACGT'.index(c)]) for c in txt)}",               # 5: ProteinSequence, same codes
+                f"s_nuc {b}"]                                      # 6: equal to 0
+        pairs = [(0, 1), (1, 0), (0, 3), (3, 0), (1, 4), (4, 1), (0, 5), (5, 0), (0, 6), (1, 1), (3, 3), (1, 5)]
+        rng.shuffle(pairs)
+        for i, j in pairs[:9]:
+            ops.append(f"s_eq {i} {j}")
+        ops += ["s_code 0", "s_code 3", "s_code 4", "s_code 5"]
+    return {"kind": "sequence-eq", "ops": ops}
+
+
+def _case_derive(rng):
+    """derive a table with with_codon_mappings / with_start_codons; the table it is derived from must not change"""
+    ops = []
+    r = rng.random()
+    if r < 0.4:
+        ops.append("c_default")
+    elif r < 0.75:
+        ops.append(f"c_load {rng.choice(TABLE_IDS)}")
+    else:
+        aa = [rng.choice(AA) for _ in range(64)]
+        aa[rng.randrange(64)] = "*"
+        ops.append(f"c_tbl {''.join(aa)} {_toks(rng.choice(RADIX_CODONS) for _ in range(rng.randint(1, 3)))}")
+    probe = "".join(rng.choice(RADIX_CODONS) for _ in range(4))
+    ops += ["c_show", f"c_tr 0 0 ATG{probe}TGAAGATAA"]
+    for _ in range(rng.randint(1, 3)):
+        if rng.random() < 0.7:
+            ks = rng.sample(RADIX_CODONS, rng.randint(1, 5))
+            if rng.random() < 0.6:
+                ks[0] = rng.choice(["TGA", "AGA", "TAA", "ATG", probe[:3]])
+            items = [f"{k}={rng.choice(AA)}" for k in ks]
+            rr = rng.random()
+            if rr < 0.07:
+                items[-1] = items[-1][:4] + rng.choice("aJ1")
+            elif rr < 0.12:
+                items[-1] = "AXG" + items[-1][3:]
+            ops.append("c_derive_map " + _toks(items))
+        else:
+            st = [rng.choice(RADIX_CODONS) for _ in range(rng.randint(1, 4))]
+            if rng.random() < 0.08:
+                st[0] = rng.choice(["AXG", "AT", "ATGA"])
+            ops.append("c_derive_starts " + _toks(st))
+        dna = _rand_dna(rng, rng.choice([9, 12, 21, 30]), ["ATG", "TTG"])
+        ops += ["c_show2", f"c_tr2 {rng.choice([0, 1])} {rng.choice([0, 1])} {dna if rng.random() < 0.5 else dna[:len(dna) // 3 * 3]}",
+                "c_show", f"c_tr 0 {rng.choice([0, 1])} ATG{probe}TGAAGATAA", f"c_tr 1 0 ATG{probe}TGAAGATAA", f"c_get {rng.choice(['TGA', 'AGA', probe[:3]])}"]
+    if rng.random() < 0.5:
+        ops += ["c_default", "c_show", "c_tr 1 0 ATGTGAAGATAA"]      # the implicit default table, after deriving from it
+    return {"kind": "codon-derive", "ops": ops}
+
+
 def _case_kmer(rng):
     ops = []
     n = rng.choice([1, 2, 3, 4, 4, 5, 15, 24, 94, 255, 256, 1000])
@@ -876,7 +979,7 @@ def _case_codon(rng, table_id=None):
 def cases(rng, tier):
     scale = 1 if tier == "quick" else 12
     plan = [(_case_alphabet, 110), (_case_bytes, 16), (_case_newalph, 12), (_case_mapper, 50),
-            (_case_sequence, 130), (_case_add, 30), (_case_kmer, 110), (_case_codon, 110)]
+            (_case_sequence, 130), (_case_add, 30), (_case_eq, 40), (_case_kmer, 110), (_case_codon, 110), (_case_derive, 50)]
     for fn, cnt in plan:
         for _ in range(cnt * scale):
             yield fn(rng)
@@ -907,6 +1010,10 @@ def corpus():
                                  "k_kmers 4 3 3,0,2 u8 0,1,2,3,3"]},
         {"kind": "codon", "ops": ["c_default", "c_tr 0 0 ATGAAATAGATGC", "c_tr 0 1 TTGAAATAGATGC", "c_tr 1 0 ATGAAATAG", "c_tr 1 0 ATGA", "c_load 11",
                                   "c_tr 0 1 TTGAAATAGATGC", "c_tr 0 0 ATGATGTAA", "c_tr 0 0 _", "c_tr 0 0 AT"]},
+        {"kind": "codon-derive", "ops": ["c_default", "c_show", "c_derive_map TGA=W,AGA=*", "c_show2", "c_show", "c_tr 1 0 ATGTGAAGATAA",
+                                         "c_tr2 1 0 ATGTGAAGATAA", "c_derive_starts TTG,CTG", "c_show2", "c_show", "c_tr 0 0 TTGATGTGA", "c_tr2 0 0 TTGATGTGA"]},
+        {"kind": "sequence-eq", "ops": ["s_new L:65,67,71,84 65,65,67,71,84", "s_new L:84,71,67,65 84,84,71,67,65", "s_code 0", "s_code 1",
+                                        "s_eq 0 1", "s_eq 1 0", "s_eq 0 0", "s_nuc 65,65,67,71,84", "s_eq 0 2", "s_eq 2 0"]},
     ]
 
 
@@ -995,6 +1102,7 @@ def reference(ops):
     exp = []
     regs = []     # dict(kind, alph(list of tokens), syms(list of tokens) | None if poisoned)
     table = [None]    # (dict, starts) | "unknown"
+    table2 = [None]   # the derived table
 
     def alph_of(spec):
         return spec.startswith("L:"), _ptoks(spec[2:])
@@ -1255,19 +1363,51 @@ def reference(ops):
             d, _ = _file_tables()[1]
             table[0] = (d, ["ATG"])
             e = ("eq", _ref_table_line(d, ["ATG"]))
-        elif op in ("c_tr", "c_get"):
+        elif op in ("c_show", "c_show2"):
+            t = table[0] if op == "c_show" else table2[0]
+            e = ("eq", "ERR:notable") if t is None else None if t == "unknown" else ("eq", _ref_table_line(*t))
+        elif op in ("c_derive_map", "c_derive_starts"):
+            # a derived table is a NEW table: `table[0]` (the one it is derived from) is not touched here
+            table2[0] = None
             if table[0] is None:
                 e = ("eq", "ERR:notable")
             elif table[0] == "unknown":
                 e = None
-            elif op == "c_get":
-                e = ("eq", "ok " + table[0][0][w[1]])
+                table2[0] = "unknown"
+            elif op == "c_derive_map":
+                items = [it.split("=") for it in _ptoks(w[1])]
+                if all(len(k) == 3 and all(b in "ACGT" for b in k) and v in AA for k, v in items):
+                    d = dict(table[0][0])
+                    d.update({k: v for k, v in items})
+                    table2[0] = (d, list(table[0][1]))
+                    e = ("eq", _ref_table_line(*table2[0]))
+                else:
+                    e = ("anyerr",)
             else:
-                d, starts = table[0]
+                st = _ptoks(w[1])
+                if st and all(len(k) == 3 and all(b in "ACGT" for b in k) for k in st):
+                    table2[0] = (table[0][0], st)
+                    e = ("eq", _ref_table_line(*table2[0]))
+                elif not st:
+                    e = None
+                    table2[0] = "unknown"
+                else:
+                    e = ("anyerr",)
+        elif op in ("c_tr", "c_get", "c_tr2"):
+            if op == "c_tr2":
+                tab = table2[0]
+            else:
+                tab = table[0]
+            if tab is None:
+                e = ("eq", "ERR:notable")
+            elif tab == "unknown":
+                e = None
+            elif op == "c_get":
+                e = ("eq", "ok " + tab[0][w[1]])
+            else:
+                d, starts = tab
                 dna = ("" if w[3] == "_" else w[3]).upper()
-                if not all(b in NUC_AMB for b in dna):
-                    e = ("err", {"AlphabetError"})
-                elif not all(b in "ACGT" for b in dna):
+                if not all(b in "ACGT" for b in dna):
                     e = ("err", {"AlphabetError"})
                 elif w[1] == "1":
                     if len(dna) % 3:
